@@ -125,3 +125,19 @@ Theorem C18_source_delete_all_counts : forall cnt,
   run_sync_cb fn_syncMap_DeleteAll cnt = Some ([("delete", [])], Some (VZ (cnt + 1)), true).
 Proof. intros; split; [exact (tie_delete_all_sharded _)|exact (tie_delete_all_sync _)]. Qed.
 Print Assumptions C18_source_delete_all_counts.
+
+(* ---- the failover metrics predicate of the correspondence check is proved of the model ---- *)
+From Cache Require Import FailoverRun FailoverObs FailoverStatsObs.
+
+(* at quiescence: cache_build = builder invocations, cache_failed = failed builds, cache_refreshed = the writes that
+   precede their thread's own builder invocation (= the model's stale re-stores, on every schedule), and nothing at all
+   without a stats tracker — the predicate C18F_obs evaluated on implementation traces *)
+Theorem C18_trace_predicate_sound : forall fe nilb c ls s,
+  frun fe nilb c f0 ls = Some s -> all_done s -> c18f_log (f_stat c) (flog s) = true.
+Proof. exact c18f_obs_holds. Qed.
+Print Assumptions C18_trace_predicate_sound.
+
+Theorem C18_refresh_reading : forall fe nilb c ls s,
+  frun fe nilb c f0 ls = Some s -> refresh_writes [] (flog s) = cntb is_brefresh (omap bproj (flog s)).
+Proof. exact refresh_reading. Qed.
+Print Assumptions C18_refresh_reading.
